@@ -589,7 +589,7 @@ class ADWIN(BaseWindow):
                     if flag_exit:
                         break
                     bucket = self.buckets[i]
-                    for j in range(bucket.idx - 1):
+                    for j in range(bucket.idx):
                         bucket_size = self._bucket_size(index=i)
 
                         w0_instances += bucket_size
